@@ -3,19 +3,19 @@
 import json, subprocess, os
 
 CLAIMED = {
- "C01": ("exploration", "bounded exhaustive enumeration of packet shapes x boundary values (deviation-bounded), round trip on the implementation against an abstract-packet oracle", "3.C01",
+ "C01": ("model_checking", "bounded exhaustive enumeration of packet shapes x boundary values (deviation-bounded), round trip on the implementation against an abstract-packet oracle", "3.C01",
          "All 15 types: complete presence lattice (2^n subsets of optional fields), every <=2 (quick) / <=3 (thorough) field deviation to any boundary value, size ladder around the 1/2/3/4-byte remaining-length steps; dense strata (every length 0..300 of every field from three bases, pairs of lengths, identifiers over a 7-bit-group alphabet, filter and field contents, list lengths, lengths/counts/contents mined from the constants of the tree under test); part of the domain built a second time with renderings after every setter and with the PUBLISH header setters in every order; write, read, compare accessor by accessor with the abstract packet, rewrite byte-identically.",
          "values outside the boundary domains and content alphabets are not explored; oracle = abstract packet chosen by the generator, binding layer mc/bind (public API only)"),
- "C02": ("exploration", "same bounded exhaustive enumeration; every emitted frame judged by an independent strict MQTT v5.0 specification decoder", "3.C02",
+ "C02": ("model_checking", "same bounded exhaustive enumeration; every emitted frame judged by an independent strict MQTT v5.0 specification decoder", "3.C02",
          "Every well-formed packet of the C01 enumeration is written and read by mc/spec's strict decoder (no code/constants shared with the library): must accept, consume exactly, and yield the values set.",
          "trusted base: mc/spec (written from the OASIS text, cross-validated encoder<->decoder by its own tests)"),
- "C03": ("exploration", "bounded exhaustive enumeration of the valid-frame language produced by the specification encoder (subsets, permutations, explicit zeros, short forms), decoded by the implementation", "3.C03",
+ "C03": ("model_checking", "bounded exhaustive enumeration of the valid-frame language produced by the specification encoder (subsets, permutations, explicit zeros, short forms), decoded by the implementation", "3.C03",
          "Frames the library's own encoder never emits: every permutation of property subsets <=3/4, full-set rotations/transpositions/reversal, interleaved repeatable properties, explicit zero values, every short form x all 256 reason codes, boundary lengths; ReadPacket must accept and report the carried values.",
          "frames are validated by the strict specification decoder before use; trusted base mc/spec"),
- "C04": ("exploration", "exhaustive odometers over raw byte-string families and field-map-driven mutations of a valid corpus; no-panic / packet-xor-error oracle", "3.C04",
+ "C04": ("model_checking", "exhaustive odometers over raw byte-string families and field-map-driven mutations of a valid corpus; no-panic / packet-xor-error oracle", "3.C04",
          "All byte strings <=2/3 bytes, 46 first bytes x all bodies <=5/6 over a 12-letter alphabet, every prefix / length-field edit / property insertion / byte substitution / cross-type reinterpretation of ~2.8k valid frames, the frames of the dense strata (all contents, all 256 option bytes), through ReadPacket (framing-level families through seven reader implementations) and all 16 UnmarshalBinary methods.",
          "bodies outside the 12-letter alphabet are reached only via mutations of valid frames"),
- "C05": ("exploration", "same exhaustive input families on a statement-instrumented build: deterministic step meter with budget, retained-size, allocation and scaling oracles", "3.C05",
+ "C05": ("model_checking", "same exhaustive input families on a statement-instrumented build: deterministic step meter with budget, retained-size, allocation and scaling oracles", "3.C05",
          "Termination and proportional work are decided by counting executed statement points (budget 2000+200*len turns a loop into a replayable verdict), retained deep size, allocated bytes and 1k-vs-10k element scaling (identical, distinct and hash-colliding elements); earlier packets must not grow and small frames must not inherit the allocation of large ones; never by wall clock.",
          "work is measured in statement points of the library as instrumented from the current tree; constants fixed with ~25x margin"),
  "C06": ("model_checking", "explicit enumeration of all frame sequences up to length 2-3 over a ~70-frame alphabet x tails on the real decoder with a counting reader", "3.C06",
@@ -27,7 +27,7 @@ CLAIMED = {
  "C08": ("fault_enumeration", "exhaustive fault enumeration: every cut offset x {EOF, injected error} x deviation-bounded fragmentations of the delivered prefix, on the real ReadPacket", "3.C08",
          "Every proper prefix of every corpus frame followed by stream end or transport failure (five error shapes), also with the error delivered together with the last chunk, through nine reader implementations; big frames (70 KB - 1.3 MB and sizes mined from the tree) cut around powers of two and mined multiples; nil packet, non-nil error, error identity and io.EOF at frame boundary.",
          "fresh error value per execution"),
- "C09": ("exploration", "exhaustive field-map-driven mutation (all inside-field cuts, 5-byte varints, boolean values 2..255, 229 undefined ids) of a valid corpus; rejection oracle cross-checked by the strict specification decoder", "3.C09",
+ "C09": ("model_checking", "exhaustive field-map-driven mutation (all inside-field cuts, 5-byte varints, boolean values 2..255, 229 undefined ids) of a valid corpus; rejection oracle cross-checked by the strict specification decoder", "3.C09",
          "Every mutant of classes (a)-(d) over ~2.8k valid frames and lenient bases (other protocol versions, non-UTF-8 user properties, other flag nibbles, foreign properties) must be rejected by ReadPacket - read alone, from a bytes.Buffer and as second frame of a burst through bufio - without panic or step-budget overrun.",
          "mutants the specification decoder still accepts are skipped and counted"),
  "C10": ("fault_enumeration", "enumeration of packets x every writer fault point k (accept k bytes then fail) with a scripted io.Writer", "3.C10",
@@ -36,14 +36,14 @@ CLAIMED = {
  "C12": ("model_checking", "explicit-state breadth-first search over setter histories on real objects with deep-digest state identity, compared with a record-of-fields model in every state", "3.C12",
          "All setter/adder sequences to depth 3/4 (2/3 from non-constructor states) from four initial states for 15 types + TopicFilter + UserProperties, alphabets with small and mid-range values, argument-identity operations (same slice/pointer handed twice, caller's slice overwritten afterwards, will changed through Will()); every accessor, HasFlag bit and the encoded frame checked in every state.",
          "model's initial record is the observation of the initial object"),
- "C15": ("exploration", "exhaustive odometer: all 2^28 values and all byte strings <=3/4 (+5-byte continuations) through hook wrappers, against an independent reference codec", "3.C15",
+ "C15": ("model_checking", "exhaustive odometer: all 2^28 values and all byte strings <=3/4 (+5-byte continuations) through hook wrappers, against an independent reference codec", "3.C15",
          "Encoder minimality and exact decoding for every value; agreement of streaming and in-memory decoder with the reference on every short byte string; the same codec at its public use sites (SUBSCRIBE identifier, PUBLISH identifier lists for every value below 2^24 / all 2^28, remaining length in situ for every short byte string and every value to 20 000 / 70 000), behind buffering readers, and into a reused destination.",
          "hook wrappers in /repo/verif_hooks.go (build tag verif)"),
- "C16": ("exploration", "complete enumeration of all 256 first bytes x valid bodies from the specification encoder", "3.C16",
+ "C16": ("model_checking", "complete enumeration of all 256 first bytes x valid bodies from the specification encoder", "3.C16",
          "Dispatch by upper nibble, Undefined carries the body, PUBLISH flag accessors, first byte preserved on three consecutive rewrites; bodies: minimal/rich/short forms and every frame of V under every flag nibble; ten reader implementations.", "bodies from mc/spec"),
- "C17": ("exploration", "full product enumeration of WellFormed inputs (all 256 option bytes per filter, id boundary, QoS x packet id x alias x topic), API-built and wire-decoded", "3.C17",
+ "C17": ("model_checking", "full product enumeration of WellFormed inputs (all 256 option bytes per filter, id boundary, QoS x packet id x alias x topic), API-built and wire-decoded", "3.C17",
          "WellFormed()!=nil iff the documented predicate; String() carries 'malformed!' iff WellFormed()!=nil; plus 43 filter contents x 256 option bytes x placement, topic contents, every flag nibble of a decoded SUBSCRIBE, zero values, and histories with in-place edits through Filters().", "predicates transcribed from the property statement"),
- "C18": ("exploration", "2-safety by exhaustive self-composition: all CONNECT shapes x all pairs of equally long credential contents, Dump and String compared", "3.C18",
+ "C18": ("model_checking", "2-safety by exhaustive self-composition: all CONNECT shapes x all pairs of equally long credential contents, Dump and String compared", "3.C18",
          "49 content instances (17 kinds incl. ill-formed UTF-8) per (shape, length) must render identically for 12k shapes x lengths 1,2,9 (+12 further lengths on bases), API-built and wire-decoded; every 3/4-call setter history (incl. UnmarshalBinary into the packet) under every assignment of two contents to its credential calls; magic auth methods / client ids mined from the tree.", "only Dump and String are in scope"),
  "C11": ("model_checking", "exhaustive exploration of map-iteration orders through a build-overlay seam (every permutation, plus independent per-range orders within a deviation bound) and explicit-state self-loop search for read-only operations by deep digest", "3.C11",
          "Every ordering Go may choose for every map range executed by WriteTo/String/Dump must give identical output (targets: bases, presence deviations, every boundary value of every field incl. 17-element lists with repeats, wills changed after attach); every sequence <=3 of {WriteTo,String,Dump,WellFormed,accessors} must leave bytes, accessors and renderings unchanged (decided through the concrete-state digest); free-running cross-process fingerprint as cross-check.",
@@ -54,7 +54,7 @@ CLAIMED = {
  "C14": ("model_checking", "explicit enumeration of decode/scribble/encode/render/set histories over a pool of real packets and a reused buffer, with bystander snapshots and alias analysis of the concrete object graphs", "3.C14",
          "All operation sequences <=3/4 over ~125 operations (decode by ReadPacket / UnmarshalBinary into zero, constructor-made and used packets, forward, scribble, encode, render, set): bystanders unchanged, decodes history independent and not blended with old values, constructors history independent, no mutable memory shared between packets or with the caller's buffer; cache-pressure histories of 3 x N decodes of pairwise distinct frames.",
          "strings are immutable and may be shared"),
- "C19": ("exploration", "exhaustive enumeration of packet values (zero/constructor values, every state of the C12 setter search, every packet accepted from the C04 input families, all 256 values of every rendered byte) rendered under a step budget", "3.C19",
+ "C19": ("model_checking", "exhaustive enumeration of packet values (zero/constructor values, every state of the C12 setter search, every packet accepted from the C04 input families, all 256 values of every rendered byte) rendered under a step budget", "3.C19",
          "String, Dump, WellFormed, WriteTo(discard) never panic nor exceed the step budget on any enumerated value (incl. every packet decoded from the dense strata: lengths, contents x reason codes, filter contents x option bytes, list lengths).",
          "budget = statement points on the instrumented build"),
 }
